@@ -466,7 +466,9 @@ def _classify_write(tmp, case, outcome):
                            tag="probe")["write"]
     tpart = "" if probe[0] != "ok" else ":" + case["type"]
     if case.get("suffix") and case["suffix"] != SPECS[case["type"]].suffix:
-        tpart += ":suffix=" + case["suffix"]
+        std = evaluate_write(tmp, dict(case, suffix=None), tag="probe")["write"]
+        if std[0] == "ok":
+            tpart += ":suffix=" + case["suffix"]
     if case.get("wmode", "w") != "w" or case.get("amode", "a") != "a":
         std = evaluate_write(tmp, dict(case, wmode="w", amode="a"), tag="probe")["write"]
         if std[0] == "ok":
@@ -519,15 +521,55 @@ def _set_value(bnp, kind, values):
     return bnp.as_encoded_array(values)
 
 
+def _not_lazy_specific(tmp, case, rows):
+    """signature of the same rows written as a freshly built table with the same pieces / mode / target, if that
+    fails too (then the fault is not one of the read-modify-write path), else None"""
+    spec = SPECS[case["type"]]
+    split = case.get("split") or [len(rows)]
+    mode = case.get("mode") or "stream"
+    variants = [dict(kind="write", type=case["type"], variant=None, rows=rows, split=split, mode=mode, gz=case["gz"])]
+    if mode != "one":
+        variants.append(dict(variants[0], split=[len(rows)], mode="one", gz=False))
+    for wc in variants:
+        out = evaluate_write(tmp, wc, tag="probe")["write"]
+        if out[0] != "ok":
+            return classify_write(tmp, wc, out)
+    return None
+
+
+def _lazy_signature(tmp, case, new_rows, tail):
+    key = ("lazy", case["type"], (case.get("modify") or {}).get("field"), case["mode"], case["gz"], tuple(min(k, 2) for k in case["split"]),
+           bool(case["header"]), tail)
+    if key not in _memo:
+        _memo[key] = _lazy_signature_(tmp, case, new_rows, tail)
+    return _memo[key]
+
+
+def _lazy_signature_(tmp, case, new_rows, tail):
+    sig = _not_lazy_specific(tmp, case, new_rows)
+    if sig:
+        return sig
+    what = "modified" if case.get("modify") else "unmodified"
+    # does the read-modify-write path fail for the simplest table too?  then it is not this type / field
+    if case["type"] != "interval":
+        rows = (pool("interval", None, "quick") * 2)[:len(case["rows"])]
+        mod = {"field": "start", "values": _alt_values("int", rows, 1)} if case.get("modify") else None
+        probe = Collector("C03", "quick", 0, "probe")
+        exec_lazy(probe, tmp, dict(case, type="interval", rows=rows, header="", modify=mod), classify=False)
+        if probe.failures:
+            return "lazy-write:%s%s" % (what, tail)
+    return "lazy-write:%s:%s%s%s" % (what, case["type"], ":" + case["modify"]["field"] if case.get("modify") else "", tail)
+
+
 def _lazy_zpart(col, tmp, case):
     if not case["gz"]:
         return ""
     probe = Collector("C03", "quick", 0, "probe")
-    exec_lazy(probe, tmp, dict(case, gz=False))
+    exec_lazy(probe, tmp, dict(case, gz=False), classify=False)
     return "" if probe.failures else ":gz-only"
 
 
-def exec_lazy(col, tmp, case):
+def exec_lazy(col, tmp, case, classify=True):
     """table read from a reference-written file (lazy object where the format supports it), optionally one column
     replaced, written in pieces"""
     import bionumpy as bnp
@@ -540,8 +582,20 @@ def exec_lazy(col, tmp, case):
     path = os.path.join(tmp, "l" + spec.suffix + (".gz" if gz else ""))
     zlabel = "gz" if gz else "plain"
     what = "modified" if modify else "unmodified"
-    esig = "lazy-write:%s:%s" % (case["type"], what)
-    d = col.guarded(lambda: bnp.open(src, buffer_type=bt).read(), esig, case)
+    def guarded(fn):
+        try:
+            return fn()
+        except Exception as e:
+            import traceback
+            sig = _lazy_signature(tmp, case, new_rows, ":exception:" + type(e).__name__) if classify else "probe"
+            col.fail(sig, case, traceback.format_exc()[-500:])
+            return None
+    new_rows = [list(r) for r in rows]
+    if modify:
+        i = spec.index(modify["field"])
+        for r, v in zip(new_rows, modify["values"]):
+            r[i] = v
+    d = guarded(lambda: bnp.open(src, buffer_type=bt).read())
     if d is None:
         return
     if header and len(split) > 1 and not hasattr(d, "get_data_object"):
@@ -549,11 +603,6 @@ def exec_lazy(col, tmp, case):
         # none, so "the same data in pieces" is not expressible by slicing: out of scope
         return
     col.case(case, contract="lazy-write:" + what)
-    new_rows = [list(r) for r in rows]
-    if modify:
-        i = spec.index(modify["field"])
-        for r, v in zip(new_rows, modify["values"]):
-            r[i] = v
 
     def do():
         if modify:
@@ -566,7 +615,7 @@ def exec_lazy(col, tmp, case):
             pieces = [d]
         write_pieces(bnp, path, bt, pieces, mode)
         return read_file(path)
-    data = col.guarded(do, esig, case)
+    data = guarded(do)
     if data is None:
         return
     exp_header = header.encode() if header else None
@@ -574,11 +623,13 @@ def exec_lazy(col, tmp, case):
         exp_header = header_marker(spec) + b"\n"
     ok, kind, msg = check_content(spec, new_rows, data, exp_header)
     if not ok:
-        if kind.startswith("header"):
+        if not classify:
+            sig = "probe"
+        elif kind.startswith("header"):
             sig = header_signature(mode, _lazy_zpart(col, tmp, case), kind)
         else:
-            sig = "lazy-write:%s:%s" % (case["type"], what + (":" + modify["field"] if modify else ""))
-        col.check(False, sig, case, msg)
+            sig = _lazy_signature(tmp, case, new_rows, "")
+        col.fail(sig, case, msg)
 
 
 def exec_rechunk(col, tmp, case):
@@ -599,14 +650,21 @@ def exec_rechunk(col, tmp, case):
         with bnp.open(path, "w", buffer_type=bt) as out:
             out.write(bnp.open(src, buffer_type=bt).read_chunks(min_chunk_size=chunk))
         return read_file(path)
-    data = col.guarded(do, "rechunk-stream:%s" % case["type"], case)
-    if data is None:
+    try:
+        data = do()
+    except Exception as e:
+        import traceback
+        sig = _not_lazy_specific(tmp, dict(case, mode="one"), rows) or "rechunk-stream:%s:exception:%s" % (case["type"], type(e).__name__)
+        col.fail(sig, case, traceback.format_exc()[-500:])
         return
     exp_header = header.encode() if header else None
     ok, kind, msg = check_content(spec, rows, data, exp_header)
     if not ok:
-        sig = header_signature("stream", "", kind) if kind.startswith("header") else "rechunk-stream:%s" % case["type"]
-        col.check(False, sig, case, msg)
+        if kind.startswith("header"):
+            sig = header_signature("stream", "", kind)
+        else:
+            sig = _not_lazy_specific(tmp, dict(case, mode="stream", split=[len(rows)]), rows) or "rechunk-stream:%s" % case["type"]
+        col.fail(sig, case, msg)
 
 
 def exec_case(col, tmp, case):
